@@ -82,6 +82,17 @@ def one_graph(args):
             os.symlink(real[b], lp)
             links.append((a, b, lname))
             edges.add((a, b))
+        # an alias next to its target whose name begins with the target's name (lib64 -> lib): no loop
+        cands = [b for b in ids[1:] if any(parent[d] == b for d in ids) and b != hidden]
+        if cands and rng.random() < 0.3:
+            b = rng.choice(cands)
+            a = parent[b]
+            lname = os.path.basename(path[b]) + rng.choice(['64', '-compat', '.d'])
+            lp = os.path.join(real[a], lname)
+            if not os.path.lexists(lp):
+                os.symlink(real[b], lp)
+                links.append((a, b, lname))
+                edges.add((a, b))
         def under_hidden(d):
             x = d
             while x:
@@ -224,6 +235,20 @@ def tmp_dir(base, prefix):
 def run_op(gem, root, op, onefs):
     E = gem.gemato.exceptions
     signal.alarm(20)
+    # directory listings as the OS gives them or sorted by name (then `lib` is listed right before `lib64`)
+    from . import drv_update
+    order = random.Random(root + op).choice([None, 'asc', 'asc', 'desc'])
+    real_scandir = os.scandir
+    if order:
+        os.scandir = lambda p='.', _r=real_scandir, _v=(order == 'desc'): drv_update.OrderedScandir(_r, p, _v)
+    try:
+        return _run_op(gem, root, op, onefs, E)
+    finally:
+        os.scandir = real_scandir
+        signal.alarm(0)
+
+
+def _run_op(gem, root, op, onefs, E):
     try:
         ld = gem.loader(os.path.join(root, 'Manifest'), allow_xdev=not onefs, hashes=['SHA1'])
         if op == 'verify':
